@@ -123,6 +123,14 @@ def numeric_value(T, x):
     return float(x)
 
 
+def clamped(T, v):
+    if T['k'] == 'double':
+        return min(max(v, rm.dlimits(T)[0]), rm.dlimits(T)[1])
+    if T['k'] == 'scaled':
+        return min(max(v, T['lo'] * T['scale']), T['hi'] * T['scale'])
+    return v
+
+
 def near(a, b):
     return abs(a - b) <= 1e-9 * max(abs(a), abs(b), 1e-300) * 4 or a == b
 
@@ -138,7 +146,7 @@ def expect_change(cs, p, x, before, mname):
     verdict = 'succeed' if st_ == 'A' else 'either'
     reason = 'payload-ok' if st_ == 'A' else 'payload:' + why
     if p.get('islimit') and T['k'] == 'tuple' and isinstance(x, list) and len(x) == 2 and all(rm.isnum(e) for e in x):
-        lo, hi = (numeric_value(T['of'][0], e) for e in x)
+        lo, hi = (clamped(T['of'][0], numeric_value(T['of'][0], e)) for e in x)   # the pair is compared after validation
         if near(lo, hi) and lo != hi:
             verdict, reason = 'either', 'limits-pair-nearly-equal'
         elif lo > hi:
